@@ -351,7 +351,20 @@ func protoDispatch(c *Ctx, f *ssa.Function) []string {
 func c01R4(c *Ctx) {
 	sf, rf := c.fn("trzszTransfer.sendFiles"), c.fn("trzszTransfer.recvFiles")
 	ds, dr := protoDispatch(c, sf), protoDispatch(c, rf)
-	c.check(strings.Join(ds, ",") == strings.Join(dr, ",") && len(ds) >= 2, "dispatch/files", "", "sender and receiver dispatch on the same protocol constants "+strings.Join(ds, ","), "sender dispatches on {"+strings.Join(ds, ",")+"}, receiver on {"+strings.Join(dr, ",")+"}")
+	// compare the version constants only: which side of each test a step sits on is compared, as ranges, by C01-R7
+	consts := func(l []string) string {
+		m := map[string]bool{}
+		for _, s := range l {
+			m[strings.TrimLeft(s, "<>=!")] = true
+		}
+		var o []string
+		for k := range m {
+			o = append(o, k)
+		}
+		sort.Strings(o)
+		return strings.Join(o, ",")
+	}
+	c.check(consts(ds) == consts(dr) && len(ds) >= 2, "dispatch/files", "", "sender and receiver dispatch on the same protocol constants "+consts(ds), "sender dispatches on {"+strings.Join(ds, ",")+"}, receiver on {"+strings.Join(dr, ",")+"}")
 	for _, pr := range [][2]string{{"trzszTransfer.sendPrefixHash", "trzszTransfer.recvPrefixHash"}, {"trzszTransfer.checkStopAndPause", "trzszTransfer.recvCheckV2"}} {
 		a, b := protoDispatch(c, c.fn(pr[0])), protoDispatch(c, c.fn(pr[1]))
 		// compare the sets of constants only (the operators may be mirrored)
@@ -879,29 +892,68 @@ func c01R11(c *Ctx) {
 		c.lost("recvFileNum in recvFiles")
 	}
 	num := extractOf(rn[0].(*ssa.Call), 0)
+	// a counter whose trip count is the announced number, in any of the usual spellings:
+	// i:=0;i<num;i++ | i:=1;i<=num;i++ | i:=num;i>0;i-- | i:=num;i>=1;i--
+	counts := func(fc fact) bool {
+		op, x, y, ok := cmpFact(fc)
+		if !ok {
+			return false
+		}
+		swap := map[token.Token]token.Token{token.LSS: token.GTR, token.GTR: token.LSS, token.LEQ: token.GEQ, token.GEQ: token.LEQ}
+		ph, isPhi := strip(x).(*ssa.Phi)
+		bound := y
+		if !isPhi {
+			if ph, isPhi = strip(y).(*ssa.Phi); !isPhi {
+				return false
+			}
+			bound = x
+			if op, ok = swap[op]; !ok {
+				return false
+			}
+		}
+		var init ssa.Value
+		step := int64(0)
+		for _, e := range ph.Edges {
+			b, isB := strip(e).(*ssa.BinOp)
+			if isB && strip(b.X) == ssa.Value(ph) && isConstIntV(1)(b.Y) && (b.Op == token.ADD || b.Op == token.SUB) {
+				st := int64(1)
+				if b.Op == token.SUB {
+					st = -1
+				}
+				if step != 0 && step != st {
+					return false
+				}
+				step = st
+				continue
+			}
+			if init != nil && !sameValue(init, e) {
+				return false
+			}
+			init = e
+		}
+		if init == nil || step == 0 {
+			return false
+		}
+		isNum := func(v ssa.Value) bool { return sameValue(v, num) }
+		switch {
+		case step == 1 && op == token.LSS && isConstIntV(0)(init) && isNum(bound):
+			return true
+		case step == 1 && op == token.LEQ && isConstIntV(1)(init) && isNum(bound):
+			return true
+		case step == -1 && op == token.GTR && isNum(init) && isConstIntV(0)(bound):
+			return true
+		case step == -1 && op == token.GEQ && isNum(init) && isConstIntV(1)(bound):
+			return true
+		}
+		return false
+	}
 	good := false
 	for _, nc := range callsIn(rf, idIs(tT+"recvFileNameV3", tT+"recvFileName")) {
 		good = false
-		for _, f := range factsAt(nc.Block()) {
-			op, x, y, ok := cmpFact(f)
-			if !ok || op != token.LSS || !sameValue(y, num) {
-				continue
+		for _, fc := range factsAt(nc.Block()) {
+			if counts(fc) {
+				good = true
 			}
-			ph, isPhi := strip(x).(*ssa.Phi)
-			if !isPhi {
-				continue
-			}
-			cnt := true
-			for _, e := range ph.Edges {
-				if z, isZ := constInt(e); isZ && z == 0 {
-					continue
-				}
-				b, isB := strip(e).(*ssa.BinOp)
-				if !isB || b.Op != token.ADD || strip(b.X) != ssa.Value(ph) || !isConstIntV(1)(b.Y) {
-					cnt = false
-				}
-			}
-			good = cnt
 		}
 		if !good {
 			break
@@ -1017,7 +1069,7 @@ func c01R13(c *Ctx) {
 	other := selectOtherArmEdge(ack, ackArm)
 	otherF := selectOtherArmEdge(fwd, fwdArm)
 	empty := func(from, to *ssa.BasicBlock) bool {
-		return factCmp(edgeFactsTo(from, to), token.EQL, isLenData, isConstIntV(0))
+		return factZero(edgeFactsTo(from, to), isLenData)
 	}
 	for _, rc := range recvs {
 		hit, path := reachFromE(rc.Block(), instrIndex(rc.(ssa.Instruction))+1, func(in ssa.Instruction) bool {
